@@ -137,6 +137,25 @@ def run(ctx):
                 continue
             agent = RA.Agent(db=[(tuple(o), v) for o, v in db], bulk_policy={"rows": ctx.rng.choice([None, None, 1, 2]), "cut": 0})
             client = W.make_client(agent, version, level)
+            if i % 5 == 2 and variant != "pytable":
+                # the client has a history: an earlier walk of the same table that its consumer
+                # abandoned after the first item, and one that failed half-way — a fetch is a
+                # function of the agent's table, not of what the client did before
+                async def abandon(client=client):
+                    async for _ in client.walk(RA.OID(entry)):
+                        break
+
+                try:
+                    W.run(abandon())
+                except Exception:  # noqa: BLE001
+                    pass
+                agent.budget = len(agent.log) + 2
+                try:
+                    W.run(client.table(RA.OID(entry)))
+                except BaseException:  # noqa: BLE001 - AgentStop after two requests, or a short table finished
+                    pass
+                agent.budget = None
+                res.count("e2e:after-interrupted-walks")
             try:
                 if variant == "table":
                     rows = ["ok", canon_rows(W.run(client.table(RA.OID(entry))))]
